@@ -55,3 +55,8 @@ CASES += [
       "            self._d__data = {}\n            self.storage_initialized =  True\n            if resolution is not None:\n                self.storage_resolution = resolution",
       "            if resolution is not None:\n                self.storage_resolution = resolution\n            self._d__data = {}\n            self.storage_initialized =  True"),
 ]
+
+CASES += [
+    m("process view accumulates into the first stored type", "C19-F",
+      "def _types_to_processes(obj, process):", "def _types_to_processes_unused(obj, process):\n    pass\n\n\ndef _types_to_processes(obj, process):\n    data = None\n    for dtype in _processes[process]:\n        try:\n            ddata = obj._d__data[dtype]\n        except (KeyError, AttributeError):\n            ddata = None\n        if ddata is not None:\n            if data is None:\n                data = ddata\n            else:\n                data += ddata\n    return data\n\n\ndef _types_to_processes_old(obj, process):"),
+]
